@@ -41,9 +41,11 @@ FUNCTIONS = ["aldy.coverage.Coverage.{filtered,quality_filter,basic_filter}",
              "aldy.major._filter_alleles (filter_fns)", "aldy.major.estimate_major",
              "aldy.minor.estimate_minor (default_filter_fn)", "aldy.cn._filter_configs",
              "aldy.major.solve_major_model", "aldy.minor.solve_minor_model"]
-STUBS = ["threshold/backed: Coverage.coverage/total on symbolic counts (SymCoverage with "
-         "the real filter semantics: a variant is kept iff the real filter function "
-         "returns a truthy value); aldy.coverage.max -> If-term max",
+STUBS = ["threshold/backed: observation lists have symbolic lengths; the real "
+         "Coverage.coverage/total/filtered and the real filter functions run on them (the "
+         "predicate's symbolic truth value forks the path); the quality filter on such lists "
+         "is the identity (decided on symbolic qualities in 'quality'); aldy.coverage.max -> "
+         "If-term max",
          "lpinterface.model -> z3-capturing backend"]
 OUTSIDE = ["indelpost's own quality handling",
            "cn_max symbolic (division by a symbolic value); it is concrete 20"]
@@ -59,6 +61,11 @@ def BOUNDS(tier):
             ]
 
 
+# called alleles without a gene copy at some sites (whole-gene deletion, fused allele): the
+# copy number at the variant's position differs from the number of called copies
+MINOR_PARTIAL = [("toy", ["1", "6"], {"1": 1, "6": 1}), ("GA", ["1", "5"], {"1": 1, "5#1": 1})]
+
+
 def configs(tier):
     c = [{"kind": "quality", "n": 3}, {"kind": "quality", "n": 4 if tier == "thorough" else 2}]
     for g in ("toy", "GA", "GB"):
@@ -69,10 +76,15 @@ def configs(tier):
                 c.append({"kind": "major", "gene": g, "genome": genome, "cn": st})
         c.append({"kind": "cnfilter", "gene": g, "genome": "hg19"})
     mins = [("toy", ["1", "1"], {"1": 1, "3": 1}), ("GA", ["1", "1"], {"3": 1, "4": 1}),
-            ("GB", ["1", "1"], {"2": 1, "5": 1})]
+            ("GB", ["1", "1"], {"2": 1, "5": 1})] + MINOR_PARTIAL
     for g, cn, mj in mins:
         for genome in ("hg19", "hg38"):
             c.append({"kind": "minor", "gene": g, "genome": genome, "cn": cn, "major": mj})
+    # a profile with one quality threshold at zero (min_mapq = 0, as the shipped pgx
+    # profiles have) and observations below the other one
+    for g, cn, mj in mins[:2]:
+        c.append({"kind": "minor", "gene": g, "genome": "hg19", "cn": cn, "major": mj,
+                  "mapq0": True})
     c.append({"kind": "consumes"})
     c.append({"kind": "phase"})
     return c
@@ -195,7 +207,7 @@ def sym_raw(gene, cn_list, muts, extra_profile=True):
             base.append(z3.Sum(alts) <= totals[pos])
         # an expression, not a fresh variable: the real Coverage.total() then sums to the
         # concrete depth and depth * threshold stays linear
-        r = totals[pos] - (z3.Sum(alts) if alts else 0)
+        r = symx.tz(totals[pos]) - (z3.Sum(alts) if alts else 0)
         xs[Mutation(pos, "_")] = r
         counts[Mutation(pos, "_")] = S(r)
     prof = Profile("verif")
@@ -359,10 +371,21 @@ def run_minor(cfg):
     cov_mod.max = symx.smax
     minor.max = symx.smax
     state = {}
+    lowq = None
+    if cfg.get("mapq0"):
+        tag += "/min_mapq=0"
+        prof.min_mapq = 0
+        lowq = {}
+        for m_ in list(xs):
+            lq = z3.Real(f"lq_{m_.pos}_{m_.op}")
+            base += [lq >= 0, lq <= 40]
+            lowq[m_.pos, m_.op] = S(lq)
+        LOWQ[cfg["gene"], cfg["genome"]] = {k: v.t for k, v in lowq.items()}
 
     def run():
         aldy.common.json.clear()
-        cov = stagelib.SymCoverage(gene, prof, counts, totals, identity_filter=False)
+        cov = stagelib.SymCoverage(gene, prof, counts, totals, identity_filter=False,
+                                   lowq=lowq)
         real = minor.solve_minor_model
 
         def spy(gene_, coverage, *a, **kw):
@@ -646,10 +669,10 @@ def cex_counts(res, cfg, stage, mdl, xs, totals, thr, mc, what):
     vals = {f"{m.pos}|{m.op}": float(symx.model_value(mdl, x)) for m, x in xs.items()}
     lqv = {f"{k[0]}|{k[1]}": float(symx.model_value(mdl, t))
            for k, t in LOWQ.get((cfg["gene"], cfg.get("genome")), {}).items()} \
-        if stage == "major" else {}
+        if stage == "major" or cfg.get("mapq0") else {}
     rp = {"kind": "counts", "stage": stage, "gene": cfg["gene"], "genome": cfg["genome"],
           "cn": cfg.get("cn", ["1", "1"]), "major": cfg.get("major"), "counts": vals,
-          "lowq": lqv,
+          "lowq": lqv, "mapq0": bool(cfg.get("mapq0")),
           "totals": {str(k): v for k, v in totals.items()},
           "thr": float(symx.model_value(mdl, thr)), "mc": float(symx.model_value(mdl, mc))}
     okk, msg = replay(rp)
@@ -672,6 +695,8 @@ def replay_counts(o):
     gene = gengene.load(o["gene"], o["genome"])
     K = 100
     prof = Profile("r", threshold=o["thr"], min_coverage=o["mc"] * K)
+    if o.get("mapq0"):
+        prof.min_mapq = 0
     counts = {}
     for k, v in o["counts"].items():
         pos, op = k.split("|", 1)
